@@ -245,6 +245,7 @@ func c01Run(c *core.Ctx) *core.Result {
 		o.Owners = []uint32{1234}
 		o.Types = "fdlp"
 		o.SymXattrs = false
+		o.SecXattrs = false // needs CAP_SETFCAP
 		eo = editOpt{Owners: []uint32{1234}, Types: "fdlp", Xattrs: true}
 	}
 	src := tree.Gen(R, o)
